@@ -46,7 +46,7 @@ chk("C01",
     assumptions=["reference interpreter written from the WHATWG text is correct (self-checked on the spec examples)", "byte transparency: invalid UTF-8 is passed through, not replaced", "retry digit strings are kept <= 18 digits"],
     nbatch={"quick": 16, "thorough": 16},
     timeout_s={"quick": 600, "thorough": 3600},
-    floors={"quick": {"evaluations": 30000, "events_observed": 100000}},
+    floors={"quick": {"evaluations": 30000, "events_observed": 100000, "resumed_reads": 500}},
     )
 
 chk("C02",
@@ -218,7 +218,7 @@ chk("C13",
     assumptions=["one event per body chunk so that Read stamps bracket exactly one dispatch"],
     nbatch={"quick": 16, "thorough": 16},
     timeout_s={"quick": 600, "thorough": 3600},
-    floors={"quick": {"scripts": 10000, "callback_invocations_observed": 50000, "porcupine_histories": 10000, "in_dispatch_scenarios": 300}},
+    floors={"quick": {"scripts": 10000, "callback_invocations_observed": 50000, "porcupine_histories": 10000, "in_dispatch_scenarios": 300, "churn_rounds": 40}},
     )
 
 chk("C16",
@@ -242,7 +242,7 @@ chk("C19",
     assumptions=["messages are not mutated concurrently with Publish by the caller"],
     nbatch={"quick": 8, "thorough": 16},
     timeout_s={"quick": 600, "thorough": 3600},
-    floors={"quick": {"family_checks": 300000, "puts": 5000, "joe_republish_executions": 1000, "shared_message_executions": 400}},
+    floors={"quick": {"family_checks": 300000, "puts": 5000, "joe_republish_executions": 1000, "shared_message_executions": 400, "long_republish_histories": 3}},
     )
 
 chk("C18",
